@@ -5,6 +5,7 @@ package main
 import (
 	"fmt"
 	"math/rand"
+	"runtime"
 	"servitor/config"
 	"servitor/jtp"
 	"servitor/ui"
@@ -125,6 +126,7 @@ func init() {
 		go s.Subcommand(startcmd, start)
 		time.Sleep(2 * time.Millisecond)
 		var wg sync.WaitGroup
+		var handled int64
 		for _, raw := range L(op, "keys") {
 			k := substitute(raw.(string), sm.hosts, opid)
 			for _, b := range []byte(k) {
@@ -133,6 +135,7 @@ func init() {
 				go func() {
 					defer wg.Done()
 					s.Update(b)
+					atomic.AddInt64(&handled, 1)
 				}()
 				switch S(op, "gaps") {
 				case "none":
@@ -151,15 +154,37 @@ func init() {
 		done := make(chan struct{})
 		go func() { wg.Wait(); close(done) }()
 		stuck := false
-		select {
-		case <-done:
-		case <-time.After(20 * time.Second):
-			stuck = true
+		/* stuck = no key handler has returned for 20 s (a slow run on a busy machine still makes
+		   progress; a deadlock makes none) */
+		last, lastAt := int64(-1), time.Now()
+	waiting:
+		for {
+			select {
+			case <-done:
+				break waiting
+			case <-time.After(250 * time.Millisecond):
+			}
+			if n := atomic.LoadInt64(&handled); n != last {
+				last, lastAt = n, time.Now()
+			} else if time.Since(lastAt) > 20*time.Second {
+				stuck = true
+				break waiting
+			}
+		}
+		stacks := ""
+		if stuck {
+			buf := make([]byte, 1<<20)
+			buf = buf[:runtime.Stack(buf, true)]
+			if len(buf) > 24000 {
+				buf = buf[:24000]
+			}
+			stacks = string(buf)
 		}
 		if !stuck {
 			/* never waits for the mutex itself: a goroutine that went away with it must show as
 			   a stuck interface, not hang the harness */
-			deadline := time.Now().Add(10 * time.Second)
+			/* a loader may keep the mutex while a slow server answers: that ends with the timeout */
+			deadline := time.Now().Add(45 * time.Second)
 			for {
 				if settled, _, free := s.VerifTrySettledHookHeld(); free && settled {
 					break
@@ -180,12 +205,17 @@ func init() {
 			go func() { pollers.Wait(); close(pollersDone) }()
 			select {
 			case <-pollersDone:
-			case <-time.After(10 * time.Second):
+			case <-time.After(45 * time.Second):
 				stuck = true
 			}
 		}
 		sm.takeLog()
-		return map[string]any{"overlaps": atomic.LoadInt64(&overlaps), "stuck": stuck, "badheights": atomic.LoadInt64(&badHeights), "frames_emitted": atomic.LoadInt64(&frames) > 0}
+		out := map[string]any{"overlaps": atomic.LoadInt64(&overlaps), "stuck": stuck, "badheights": atomic.LoadInt64(&badHeights), "frames_emitted": atomic.LoadInt64(&frames) > 0}
+		if stacks != "" {
+			/* where everything was when nothing moved any more */
+			out["stacks"] = stacks
+		}
+		return out
 	}
 	groups["C08"] = group{gen: func(r *rand.Rand, n int, emit func(Op)) {
 		/* reuse the UI worlds; the key scripts are denser */
@@ -236,8 +266,8 @@ func init() {
 					for k, v := range m {
 						c[k] = v
 					}
-					c["fault"] = pick(r, []string{fmt.Sprintf("cut:%d:eof", r.Intn(len(resp)+1)), fmt.Sprintf("cut:%d:reset", r.Intn(len(resp)+1)), "cut:0:reset", "trickle:1"})
-					if c["fault"] == "trickle:1" && len(resp) > 700 {
+					c["fault"] = pick(r, []string{fmt.Sprintf("cut:%d:eof", r.Intn(len(resp)+1)), fmt.Sprintf("cut:%d:reset", r.Intn(len(resp)+1)), "cut:0:reset", "drip:1000"})
+					if c["fault"] == "drip:1000" && len(resp) > 700 {
 						c["fault"] = "cut:40:eof"
 					}
 					routes = append(routes, c)
